@@ -1,10 +1,8 @@
 """C07 check configuration (see lib/props.py for the field meanings)."""
 
 PROP = {
-    "level_text_more": "Client names of several words are searched for by lower-case words, and TestVFC07RegressLongRecord pages through files holding one record of generated size (11-48 KB answer) at a generated position: records above the reader's 16 KiB entry size are a listed open finding.",
+    "level_text_more": "The part 'home' runs the whole program (the histories of the C09 part of that name: real installation, real DNS server, queries over UDP, POST /control/dns_config restarts of which some fail and leave the server stopped, production cleanup()): every entry GET /control/querylog listed before the clean shutdown must be in querylog.json(.1) afterwards. Client names of several words are searched for by lower-case words, and TestVFC07RegressLongRecord pages through files holding one record of generated size (11-48 KB answer) at a generated position: records above the reader's 16 KiB entry size are a listed open finding.",
     "thorough_scale": 4,
-    "pkg": "internal/querylog",
-    "files": ["querylog/c07_model_test.go", "querylog/c07_machine_test.go", "querylog/c07_props_test.go", "querylog/c07_budget_test.go", "querylog/c07_longline_test.go"],
     "level": "exploration",
     "technique": "property-based testing (rapid): a state machine over record / flush / rotate / clear / settings "
                  "change / restart against a reference model of the retained entries; every read goes through the "
@@ -44,14 +42,24 @@ PROP = {
                   "hosts and per-client ignore flags at read time (C08), lines of 16 KiB and more (C20), the 50000-line "
                   "scan limit of unfiltered cursor reads, concurrent readers/writers (C05), host names holding a quote or a "
                   "backslash.",
-    "tests": [
-        ("TestVFC07History", (80, 400), {"steps": 30}),
-        ("TestVFC07Layout", (80, 400)),
-        ("TestVFC07Params", (300, 2000)),
-        ("TestVFC07StoredLine", (1500, 15000)),
-        ("TestVFC07RegressLongRecord", (40, 150), {"shards": (1, 4)}),
+    "parts": [
+        {"name": "querylog", "pkg": "internal/querylog",
+         "files": ["querylog/c07_model_test.go", "querylog/c07_machine_test.go", "querylog/c07_props_test.go", "querylog/c07_budget_test.go", "querylog/c07_longline_test.go"],
+         "tests": [
+             ("TestVFC07History", (80, 400), {"steps": 30}),
+             ("TestVFC07Layout", (80, 400)),
+             ("TestVFC07Params", (300, 2000)),
+             ("TestVFC07StoredLine", (1500, 15000)),
+             ("TestVFC07RegressLongRecord", (40, 150), {"shards": (1, 4)}),
+         ],
+         "plain": ["TestVFC07RegressCursor", "TestVFC07RegressBounds", "TestVFC07RegressEscaped", "TestVFC07ScanBudget"]},
+        # the whole program (written for C09): installation, real DNS server, dns_config restarts (some failing),
+        # production cleanup(); one history per process
+        {"name": "home", "pkg": "internal/home",
+         "files": ["home/common_assembly_test.go", "home/c11_test.go", "home/c11_raw_test.go", "home/c11_shutdown_test.go",
+                   "home/c11_install_test.go", "home/c09_home_test.go"],
+         "tests": [("TestVFC07HomeShutdown", (1, 1), {"shards": (8, 32), "shrinktime": "0s", "thorough_scale": 1})]},
     ],
-    "plain": ["TestVFC07RegressCursor", "TestVFC07RegressBounds", "TestVFC07RegressEscaped", "TestVFC07ScanBudget"],
     "shards": (4, 16),
     "workers": (4, 16),
     "timeout": (900, 3600),
